@@ -19,7 +19,7 @@ ASSUMPTIONS = [
     "shortcut (hash_only without with_unchanged): reported subset of the reference, every hidden key below a directory entry with equal truthy hash on both sides, and no hidden key is a file entry; hidden representational differences of sub-directory entries are counted",
 ]
 MONITORS = "multiset of (key, type) reported by diff() vs flat reference; rename pair validity and maximality; self-diff / swap / conservation relations on the implementation's own outputs"
-REQUIRED_COUNTERS = ["inplace_history_diffs", "inplace_adds_through_new_directories", "unknown_directory_diffs", "keys_reported_unknown", "meta_cmp_key_projecting_to_none_diffs", "diffs", "with_renames_diffs", "renames_seen", "shortcut_diffs", "shortcut_branches_skipped", "kind_change_pairs",
+REQUIRED_COUNTERS = ["two_handle_diffs", "inplace_history_diffs", "inplace_adds_through_new_directories", "unknown_directory_diffs", "keys_reported_unknown", "meta_cmp_key_projecting_to_none_diffs", "diffs", "with_renames_diffs", "renames_seen", "shortcut_diffs", "shortcut_branches_skipped", "kind_change_pairs",
                      "self_diffs", "swap_relations", "one_side_none", "shallow_diffs", "roots_diffs", "changes_classified", "meta_cmp_key_diffs"]
 
 ADD, MODIFY, RENAME, DELETE, UNCHANGED = "add", "modify", "rename", "delete", "unchanged"
@@ -52,7 +52,7 @@ def run_shard(ctx):
             r = rng.random()
             if r < 0.15:
                 continue  # dropped
-            meta = (rng.choice([1, 2, 3]), rng.random() < 0.2, rng.choice([None, None, "e1", "e2"]))
+            meta = (rng.choice([1, 2, 3]), rng.random() < 0.2, rng.choice([None, None, "e1", "e2"]), rng.choice([None, None, 1000.25, 1000.75, 1001.25, 1000]))
             if r < 0.30:
                 h = rng.choice(pool)
             elif r < 0.36:
@@ -67,14 +67,14 @@ def run_shard(ctx):
             if rng.random() < 0.08 and len(k) < 4:
                 hv = out.pop(k)
                 out[(*k, "inner")] = hv
-                out[(*k, "inner2")] = (rng.choice(pool), (1, False, None))
+                out[(*k, "inner2")] = (rng.choice(pool), (1, False, None, None))
         dirs = sorted({k[:i] for k in out for i in range(1, len(k))})
         for dk in dirs:
             if rng.random() < 0.08:
                 for f in [f for f in out if f[: len(dk)] == dk]:
                     del out[f]
                 if not any(dk[:i] in out for i in range(1, len(dk))):
-                    out[dk] = (rng.choice(pool), (2, False, None))
+                    out[dk] = (rng.choice(pool), (2, False, None, None))
         # a moved sub-tree / file (rename candidates)
         for k in list(out):
             if rng.random() < 0.1 and out[k][0]:
@@ -83,7 +83,7 @@ def run_shard(ctx):
                 out[nk] = hv
         if rng.random() < 0.5:
             nk = (gen.name(rng, odd=0.2) + "-new",)
-            out[nk] = (rng.choice(pool), (1, False, None))
+            out[nk] = (rng.choice(pool), (1, False, None, None))
         # drop files that ended up below another file
         for k in sorted(out, key=len):
             if any(k[:i] in out for i in range(1, len(k))):
@@ -111,12 +111,12 @@ def run_shard(ctx):
             idx[dk] = DataIndexEntry(key=dk, meta=Meta(isdir=True), hash_info=hi, loaded=True)
             flat[dk] = (("md5", hi.value) if hi else None, ("dir",))
         for k, (h, meta) in fmap.items():
-            m = Meta(size=meta[0], isexec=meta[1], etag=meta[2]) if meta is not None else None
+            m = Meta(size=meta[0], isexec=meta[1], etag=meta[2], mtime=meta[3]) if meta is not None else None
             hname, hval = (h.split(":", 1) if h and ":" in h else ("md5", h))
             hi = HashInfo(hname, hval) if h else None
             idx[k] = DataIndexEntry(key=k, meta=m, hash_info=hi)
             # info() gives a hash-bearing entry without Meta a default one
-            mt = ("file", meta[0], meta[1], meta[2]) if meta is not None else (("file", None, False, None) if h else None)
+            mt = ("file", meta[0], meta[1], meta[2], meta[3]) if meta is not None else (("file", None, False, None, None) if h else None)
             flat[k] = ((hname, hval) if h else None, mt)
         return idx, flat, used
 
@@ -176,7 +176,7 @@ def run_shard(ctx):
         elif e.meta.isdir:
             m = ("dir",)
         else:
-            m = ("file", e.meta.size, e.meta.isexec, e.meta.etag)
+            m = ("file", e.meta.size, e.meta.isexec, e.meta.etag, e.meta.mtime)
         return (h, m)
 
     def cmp_key_fn(meta):
@@ -466,7 +466,7 @@ def run_shard(ctx):
                         continue
                     h = rng.choice(pool)
                     victim_side[nk] = DataIndexEntry(key=nk, meta=Meta(size=1), hash_info=HashInfo("md5", h))
-                    vflat[nk] = (("md5", h), ("file", 1, False, None))
+                    vflat[nk] = (("md5", h), ("file", 1, False, None, None))
                     res.count("inplace_adds_through_new_directories")
                 for k in rng.sample(file_keys, min(len(file_keys), rng.randrange(0, 3))):
                     if rng.random() < 0.5:
@@ -475,7 +475,7 @@ def run_shard(ctx):
                     else:
                         h = "%032x" % rng.getrandbits(64)
                         victim_side[k] = DataIndexEntry(key=k, meta=Meta(size=7), hash_info=HashInfo("md5", h))
-                        vflat[k] = (("md5", h), ("file", 7, False, None))
+                        vflat[k] = (("md5", h), ("file", 7, False, None, None))
 
         def unknown(case=case, rng=rng):
             """a directory that cannot be loaded on one side, with_unknown=True: which keys are reported as not comparable must not
@@ -518,7 +518,52 @@ def run_shard(ctx):
                               case=case, detail={"unknown_by_mode": {m: ["/".join(k) for k in v] for m, v in seen.items()}, "broken_side": broken_side})
             ctx.drop(d)
 
-        if case % 10 == 3:
+        def two_handles(case=case, rng=rng):
+            """an SQLite-backed index open through two handles: one writes and commits, the other (long-lived) is diffed before and after"""
+            import os
+
+            d = ctx.fresh("th")
+            dbp = os.path.join(d, "idx.db")
+            base, pool = gen_base(rng)
+            fa, fb = side_from(rng, base, pool, True), side_from(rng, base, pool, True)
+            sty = lambda fm: {dk: rng.choice(["implicit", "explicit"]) for dk in {k[:i] for k in fm for i in range(1, len(k))}}  # noqa: E731
+            mem_a, flat_a, _sa = build_index(rng, fa, sty(fa))
+            ref, flat_b, _sb = build_index(rng, fb, sty(fb))
+            w = DataIndex.open(dbp)
+            for k_, e_ in mem_a.iteritems():
+                w[k_] = e_
+            w.commit()
+            # (the persisted form of an entry's metadata has no inode / mtime)
+            flat_a = {k_: (h_, (mt_[:4] + (None,)) if (mt_ is not None and mt_[0] == "file") else mt_) for k_, (h_, mt_) in flat_a.items()}
+            r = DataIndex.open(dbp)
+            for rnd in range(3):
+                opts = {"with_unchanged": rng.random() < 0.6}
+                res.evaluated()
+                res.count("diffs")
+                res.count("two_handle_diffs")
+                res.nontrivial("two-handles", sorted(flat_a.items(), key=repr), sorted(flat_b.items(), key=repr), rnd)
+                detail = {"old": {"/".join(k): v for k, v in flat_a.items()}, "new": {"/".join(k): v for k, v in flat_b.items()}, "round": rnd}
+                if not simple_check(run_diff(r, ref, **opts), flat_a, flat_b, opts["with_unchanged"], False, False,
+                                    "/changed-through-another-handle" if rnd else "", detail):
+                    break
+                # the writer changes and deletes file entries, and commits
+                file_keys = sorted(k for k, v in flat_a.items() if v[1] is None or v[1][0] == "file")
+                for k in rng.sample(file_keys, min(len(file_keys), rng.randrange(1, 4))):
+                    if rng.random() < 0.4 and len(file_keys) > 1:
+                        del w[k]
+                        del flat_a[k]
+                    else:
+                        h = "%032x" % rng.getrandbits(64)
+                        w[k] = DataIndexEntry(key=k, meta=Meta(size=9), hash_info=HashInfo("md5", h))
+                        flat_a[k] = (("md5", h), ("file", 9, False, None, None))
+                w.commit()
+            w.close()
+            r.close()
+            ctx.drop(d)
+
+        if case % 40 == 13:
+            ctx.guard(case, two_handles)
+        elif case % 10 == 3:
             ctx.guard(case, inplace)
         elif case % 20 == 7:
             ctx.guard(case, unknown)
